@@ -59,6 +59,9 @@ INLINE_TAGS = ['span', 'span', 'em', 'a', 'b']
 WORDS = ['aa', 'bb cc', 'd', 'ee ff gg', '&#x20;', 'hh']
 
 
+ANCHOR_NAMES = ['b', 'a', 'Z', 'ab', 'a-1', 'z9', 'a\u00e9', '\u00fc1', '\u4e2d', 'b\u00e9', '\U0001f600', '\uffee']
+
+
 def svg_uri(rng):
     """An SVG image whose fill / stroke colours are drawn from the same colour syntaxes."""
     fill, stroke = rng.choice(COLOURS[:-2]), rng.choice(COLOURS[:-2])
@@ -181,8 +184,11 @@ def document(rng, depth=3):
     html_style = rng.choice(['', '', 'overflow:hidden', 'background:silver', 'opacity:0.5', 'transform:scale(0)'])
     body_style = rng.choice(['', '', 'background:rgba(0,255,0,0.25)', 'overflow:hidden'])
     body = ''.join(block(rng, depth) for _ in range(rng.choice([1, 2, 3, 4])))
-    if rng.random() < 0.3:
-        body += '<p style="break-before:page">next</p>'
+    if rng.random() < 0.45:      # a second page with its own marked content, link target and stacking context
+        body += f'<p id="t2" style="break-before:page;{style_for(rng, inline=True)}">next <a href="#t1">back</a></p>'
+    if rng.random() < 0.5:       # internal links to anchors with ASCII and non-ASCII names (the /Dests name array)
+        for name in rng.sample(ANCHOR_NAMES, rng.choice([1, 2, 3, 4])):
+            body += f'<a href="#{name}">k</a><i id="{name}">v</i> '
     html = (f'<html lang="en" style="{html_style}"><head><title>t</title><meta name="author" content="a">'
             f'<style>{css}</style></head><body style="{body_style}">{body}</body></html>')
     return html, geo
